@@ -4,7 +4,7 @@ CONSTANTS
   BS = 560
   RootLim = 2
   NodeLim = 3
-  MaxOps = 9
+  MaxOps = 8
 INVARIANT InvDx
 INVARIANT InvLookup
 INVARIANT InvLive
